@@ -67,6 +67,20 @@ type Options struct {
 	Strategy  map[string]string
 }
 
+// Key is a canonical string of the options (cache key for base snapshots).
+func (o Options) Key() string {
+	s := fmt.Sprintf("audit=%v proof=%s gas=%d admins=", o.Audit, o.ProofType, o.GasPrice)
+	for _, a := range o.Admins {
+		s += fmt.Sprintf("%s/%d,", a.Address, a.Weight)
+	}
+	var ms []string
+	for m, e := range o.Strategy {
+		ms = append(ms, m+"="+e)
+	}
+	sort.Strings(ms)
+	return s + " strategy=" + strings.Join(ms, ";")
+}
+
 func (o Options) config() *repo.Config {
 	cfg, _ := repo.DefaultConfig()
 	cfg.Executor.Type = "serial"
